@@ -90,8 +90,9 @@ Proof. intros m v Hc Hs. split; [apply (proto_roundtrip_l OtlpSchema otlp_schema
 Print Assumptions otlp_proto_roundtrip.
 
 (* "decoding what the marshaler produced yields a payload EQUAL to the original" is false of the
-   code for -0.0 in a singular double (known finding C08-NEGZERO) and for a Bytes value holding nil
-   (C08-EMPTYBYTES): witnesses on the real schema. *)
+   code for -0.0 in a singular double (known finding C08-NEGZERO, open: no small repair, see NOTES.md):
+   witness on the real schema.  (A oneof wrapper holding a NIL slice is likewise dropped by the generated
+   Marshal — Witness.emptybytes_roundtrip — but the public API no longer builds one: api_empty_bytes_roundtrip.) *)
 Theorem proto_roundtrip_refuted :
   exists m v, canonical OtlpSchema m (norm OtlpSchema m v) = true
               /\ decode OtlpSchema m (encode OtlpSchema m v) <> Some v.
@@ -296,3 +297,40 @@ Print Assumptions t1_schema_enum_values.
 Theorem prop_ok_sound : forall c, prop_ok c = true <-> Clause c.
 Proof. exact prop_ok_sound_l. Qed.
 Print Assumptions prop_ok_sound.
+
+(* ---- the public JSON decode path: ValidateUTF8, then the decoder ------------------------------------ *)
+(* a document that is not valid UTF-8 (some key or string of the tree is not) is REJECTED; on every other
+   document the public path is the decoder of_json, so every theorem about of_json is about the public path *)
+Theorem json_public_path : forall (S : schema) D E m j,
+  (jv_utf8 j = true -> unmarshal_json S D E m j = of_json S D E m j)
+  /\ (jv_utf8 j = false -> unmarshal_json S D E m j = None).
+Proof. exact unmarshal_json_spec_l. Qed.
+Print Assumptions json_public_path.
+
+Theorem json_roundtrip_public : forall (S : schema) (D : list jdec) (E : enums), wf_schema S = true ->
+  forall m v, canonical S m v = true -> jok S D m v = true -> no_deprecated S m v = true ->
+  jv_utf8 (to_json S m v) = true ->
+  unmarshal_json S D E m (to_json S m v) = Some v.
+Proof.
+  intros S D E Hwf m v Hc Hj Hn Hu. destruct (unmarshal_json_spec_l S D E m (to_json S m v)) as [H _].
+  rewrite (H Hu). apply json_roundtrip_nd_l; assumption.
+Qed.
+Print Assumptions json_roundtrip_public.
+
+(* ---- an empty Bytes value as the public API builds it (NewValueBytes / SetEmptyBytes: an empty NON-NIL slice
+   in the oneof wrapper) is an ordinary canonical value, for every schema; on the real schema it survives
+   protobuf and JSON and the two encodings agree (was: C08-EMPTYBYTES, repaired in /repo ee4467fcf) ------- *)
+Theorem api_empty_bytes_canonical : forall (S : schema) d g,
+  fcd d = COneof g -> fty d = TBytes -> canon_slot S d api_empty_bytes = true.
+Proof. exact api_empty_bytes_canonical_l. Qed.
+Print Assumptions api_empty_bytes_canonical.
+
+Theorem api_empty_bytes_roundtrip :
+  let m := m_common_v1_AnyValue in let w := any_with api_empty_bytes in
+  canonical OtlpSchema m w = true
+  /\ decode OtlpSchema m (encode OtlpSchema m w) = Some w
+  /\ unmarshal_json OtlpSchema OtlpJsonDecoders OtlpEnums m (to_json OtlpSchema m w) = Some w
+  /\ option_map (encode OtlpSchema m) (unmarshal_json OtlpSchema OtlpJsonDecoders OtlpEnums m (to_json OtlpSchema m w))
+     = Some (encode OtlpSchema m w).
+Proof. exact api_empty_bytes_roundtrip_l. Qed.
+Print Assumptions api_empty_bytes_roundtrip.
